@@ -154,7 +154,10 @@ class IncrementalOptimizer(OptBase):
 
     def cases(self, tier):
         out = []
-        for obj in ("makespan", "flowtime", "utilization_max", "indicator_min_bounded", "indicator_max"):
+        objs = ["makespan", "flowtime", "utilization_max", "indicator_min_bounded", "indicator_max"]
+        if tier == "thorough":
+            objs += ["priorities", "start_latest", "greatest_start"]
+        for obj in objs:
             for mi in ("none", "int"):
                 out.append(dict(obj=obj, max_iter=mi))
         return out
@@ -175,6 +178,12 @@ class IncrementalOptimizer(OptBase):
             obj = ps.ObjectiveMinimizeFlowtime()
         elif o == "utilization_max":
             obj = ps.ObjectiveMaximizeResourceUtilization(resource=w)
+        elif o == "priorities":
+            obj = ps.ObjectivePriorities()
+        elif o == "start_latest":
+            obj = ps.ObjectiveTasksStartLatest()
+        elif o == "greatest_start":
+            obj = ps.ObjectiveMinimizeGreatestStartTime()
         elif o == "indicator_min_bounded":
             ind = ps.IndicatorFromMathExpression(name="ind", expression=t1._start + t2._end, bounds=(P.int("lb"), P.int("ub")))
             obj = ps.ObjectiveMinimizeIndicator(target=ind, weight=1)
@@ -218,7 +227,7 @@ class IncrementalOptimizer(OptBase):
     def clauses(self, P, ctx, case):
         solver, result, base, variable, kind = ctx["solver"], ctx["result"], ctx["base"], ctx["variable"], ctx["kind"]
         out = []
-        want_kind = "max" if case["obj"] in ("utilization_max", "indicator_max") else "min"
+        want_kind = "max" if case["obj"] in ("utilization_max", "indicator_max", "start_latest") else "min"
         out.append(Clause("wiring[direction and target are the declared objective's]", z3.BoolVal(kind == want_kind and variable.eq(T(ctx["obj"]._target))), props=("C07", "C15"), kind="state"))
         if not P.symbolic:
             # native run (differential): the real optimiser ran to the end on this instance
